@@ -325,7 +325,7 @@ theorem ptrs_swap_K {impls : List (Nat × Impl)} {C K oK : List (Nat × Option N
     PtrsI impls C (aset (aset K i b) j a) oK :=
   ptrs_aset_K (h.2.1.get ha) (ptrs_aset_K (h.2.1.get hb) h)
 
-set_option maxHeartbeats 1000000 in
+set_option maxHeartbeats 400000 in
 theorem Ptrs_simple (s : St) (op : Op) (s' : St) (r : String) (hW : WF s) (hH : HOK s) (hI : Ptrs s)
     (h : stepSimple s op = some (s', r)) : Ptrs s' := by
   cases op <;> simp only [stepSimple] at h
